@@ -85,5 +85,94 @@ def AllRunsFinish : Nat → St → Prop
   | 0, s => K.finished s.k
   | n + 1, s => K.finished s.k ∨ ((∃ t s', step s t = some s') ∧ ∀ t s', step s t = some s' → AllRunsFinish n s')
 
+/-! ## C12.E.G — the same composition with ANY commands and the GPU port
+
+`E` reads the component off the protocol state, which is only possible for commands that complete
+when they are started. Here the component `Driver.Tick` works on (`W.Drv.C`: queues of Noop / kernel
+commands with `IsRunning` and the outstanding-request count, `requestsToSend`, the memory-copy
+timer, both buffers of the GPU port) is part of the state; the protocol part is still a `K.St` moved
+by `K.step` for the application threads, `runAsync` and the engine goroutine outside the tick event —
+its `qs` are the ids of the commands queued in the component (`Sync`), which is what
+`DrainCommandQueue` tests. The tick event is `W.runStages (W.Drv.stages outCap)`; the commands it
+dequeued are dequeued in the id queues (`syncQs`) and the subscribers of those queues are notified
+(`notifyChanged`). Two more actors: the connection delivers a `LaunchKernelRsp` / retrieves a request
+(`W.step .deliver/.retrieve`). With kernels a queue can be non-empty while the driver rightly sleeps
+(waiting for the GPU), so `K`'s invariant does not hold here — the link `owed ⇒ willSignal ∨ r = tick`
+and the refinement to `W.step` do. -/
+namespace G
+
+structure St where
+  k : K.St
+  core : W.Drv.C
+  owed : Bool := false
+
+inductive Th
+  | app (j : Nat) | async | eng
+  | deliver (m : W.Drv.Rsp)     -- the connection delivers a `LaunchKernelRsp`
+  | retrieve                    -- the connection takes a request from the GPU port
+deriving DecidableEq, Repr
+
+/-- the id queue after the component's queue shrank to `w`: the completed commands are dequeued -/
+def syncQ (q : K.Qu) (w : W.Drv.Q) : K.Qu := Nat.repeat K.deqQu (q.cmds.length - w.cmds.length) q
+def syncQs (qs : List K.Qu) (ws : List W.Drv.Q) : List K.Qu := List.zipWith syncQ qs ws
+
+/-- `NotifyAllSubscribers` of every queue a command was dequeued from -/
+def notifyChanged : Nat → List K.Qu → List W.Drv.Q → List K.App → List K.App
+  | i, q :: qs, w :: ws, apps =>
+    notifyChanged (i + 1) qs ws (if w.cmds.length < q.cmds.length then K.notifyAll i apps else apps)
+  | _, _, _, apps => apps
+
+/-- the queue of the thread's next call -/
+def enqTarget (a : K.App) : Nat := match a.script with
+  | .enq q :: _ => q
+  | _ => 0
+
+/-- `kind id` = the command an `Enqueue` with ghost id `id` appends (any assignment) -/
+def step (kind : Nat → W.Drv.Cmd) (inCap outCap : Nat) (s : St) : Th → Option St
+  | .app j => match s.k.apps[j]? with
+    | none => none
+    | some a => (K.step s.k (.app j)).map fun k' =>
+        if isEnq a then { k := k', core := { s.core with d := W.Drv.enqCmd (enqTarget a) (kind s.k.nextId) s.core.d }, owed := true }
+        else { s with k := k' }
+  | .async => (K.step s.k .async).map fun k' => { s with k := k', owed := s.owed && !(s.k.r == .tick) }
+  | .eng =>
+    if s.k.e = .loop ∧ s.k.evt = true then
+      let r := W.runStages (W.Drv.stages outCap) s.core
+      some { s with core := r.1,
+                    k := { s.k with evt := r.2, qs := syncQs s.k.qs r.1.d.qs,
+                                    apps := notifyChanged 0 s.k.qs r.1.d.qs s.k.apps } }
+    else if K.isTickPc s.k.e then none
+    else (K.step s.k .eng).map fun k' => { s with k := k' }
+  | .deliver m =>
+    if s.core.inb.length < inCap then
+      some { s with core := { s.core with inb := s.core.inb ++ [m] },
+                    k := { s.k with evt := s.k.evt || s.core.inb.isEmpty } }
+    else none
+  | .retrieve => match s.core.outb with
+    | [] => none
+    | _ :: rest => some { s with core := { s.core with outb := rest },
+                                 k := { s.k with evt := s.k.evt || (s.core.outb.length == outCap) } }
+
+def init (scripts : List (List K.Op)) (nq : Nat) : St :=
+  { k := K.init scripts nq, core := { d := { qs := List.replicate nq {}, cyc := none } } }
+
+def runSched (kind : Nat → W.Drv.Cmd) (inCap outCap : Nat) (s : St) : List Th → Option St
+  | [] => some s
+  | t :: ts => match step kind inCap outCap s t with
+    | none => none
+    | some s' => runSched kind inCap outCap s' ts
+
+inductive Reach (kind : Nat → W.Drv.Cmd) (inCap outCap : Nat) : St → Prop
+  | init (scripts : List (List K.Op)) (nq : Nat) (h : ∀ sc ∈ scripts, K.okScript sc = true) : Reach kind inCap outCap (init scripts nq)
+  | step {s s' : St} (t : Th) : Reach kind inCap outCap s → step kind inCap outCap s t = some s' → Reach kind inCap outCap s'
+
+def sysOf (s : St) : W.Sys W.Drv.D W.Drv.Rsp W.Drv.Req := { core := s.core, awake := s.k.evt, owed := s.owed }
+
+/-- the id queues mirror the component's queues: same number of queues, same number of commands -/
+def Sync (s : St) : Prop := s.k.qs.map (fun q => q.cmds.length) = s.core.d.qs.map (fun q => q.cmds.length)
+instance (s : St) : Decidable (Sync s) := by unfold Sync; exact inferInstance
+
+end G
+
 end E
 end C12
